@@ -172,9 +172,14 @@ def gen_fp_case(seed, n, quick):
 
 def gen_ins_case(seed, n, quick):
     rng = rng_for(seed, "C08", "ins", n)
-    return dict(model=["G2u", "G3u", "G2u", "G4u"][n % 4], reparam=["logit", None][(n // 2) % 2] if n % 3 else "logit",
-                ftype=["realnvp", "nsf", "maf"][n % 3], dtype=["float64", "float32"][n % 2], reset_flow=[True, False, 2][int(rng.integers(3))],
-                clip=bool(rng.random() < 0.3), weighted_kl=bool(rng.random() < 0.7))
+    cfg = dict(model=["G2u", "G3u", "G2u", "G4u"][n % 4], reparam=["logit", None][(n // 2) % 2] if n % 3 else "logit",
+               ftype=["realnvp", "nsf", "maf"][n % 3], dtype=["float64", "float32"][n % 2], reset_flow=[True, False, 2][int(rng.integers(3))],
+               clip=bool(rng.random() < 0.3), weighted_kl=bool(rng.random() < 0.7))
+    if n % 3 == 1:
+        # a posterior piled against the prior bounds: generated points get clipped onto / clamped near the faces of the unit hypercube, which is where a
+        # density evaluated at the raw flow output differs from the density of the stored (clipped) point
+        cfg.update(model="G2e", reparam=[None, "logit"][(n // 3) % 2], clip=True if (n // 3) % 2 == 0 else cfg["clip"], ftype=["maf", "realnvp"][(n // 6) % 2])
+    return cfg
 
 
 # ------------------------------------------------------------------------------------------------ numerics
